@@ -236,6 +236,16 @@ fn gen_op(t: &mut Tape, kinds: &mut [Kind; 4]) -> Stmt {
             // read back through a temporary
             let i = gen_index(t, len_of(k));
             let j = gen_index(t, 2);
+            if matches!(k, Kind::Str(_)) && t.maybe(110) {
+                // an extracted character is a text of its own: changing it in place changes neither the text it came from nor
+                // what the same position (or the same character anywhere else) yields afterwards
+                let ch = string(t.pick_str(&["xyz", "é", "", "q"]));
+                return Stmt::Block(vec![
+                    let_("tmp", index(ident(v), i.clone())),
+                    es(assign(index(ident("tmp"), int(0)), ch)),
+                    es(assign(ident("r"), array(vec![ident("tmp"), index(ident(v), i), index(string("abcabc"), int(0)), calln("lengte", vec![ident(v)])]))),
+                ]);
+            }
             Stmt::Block(vec![let_("tmp", index(ident(v), i)), es(assign(ident("r"), calln("lees", vec![ident("tmp"), j])))])
         }
         _ => {
